@@ -210,7 +210,8 @@ FACETS = [
     Facet(name="seeded_binseg", check=check, strategy=cases,
           rule=("n in [2msl,60], msl from the scorer's minimum size, max_interval_length in [2msl, 2msl+40] (boundary made likely), "
                 "growth factor in (1,2], threshold scales {0,.2,.5,1,2,None}; scorers CUSUM / L2 / GaussianVar (as cost or "
-                "ChangeScore) on structured data and user-defined integer Table/Function change scores (ties); "
+                "ChangeScore, a user subclass of CUSUM, a user cost subclassing L2Cost) on structured data in small / large units and user-defined integer "
+                "Table/Function change scores (ties, negative and multi-column values); detector optionally fitted on other data (shorter / longer / the same buffer refilled afterwards) and optionally with a past (scorer pre-fitted on wider data; earlier predict on the caller's array / frame, then refilled in place); "
                 "non-trivial = >=1 changepoint and >=2 intervals above the threshold"),
           n_quick=800, n_thorough=12000, shards_quick=8, shards_thorough=16),
 ]
